@@ -307,6 +307,21 @@ def dstep (s : DState) : List String → DState × String
          let r := ownerDisable ⟨s.disabled, s.conf⟩ plugin cmd
          ({ s with disabled := r.1.store, conf := r.1.conf }, encOwner r))
     | _, _ => (s, "bad-op")
+  | ["odefault", rm, cmd, pl] =>
+    match decBool rm, dec cmd, (if pl = "~" then some none else (decNat pl).map some) with
+    | some rm, some cmd, some pl =>
+      let plugin : Option (Option (Str × List Str)) :=
+        match pl with
+        | none => some none
+        | some i => (s.dispCfg.callbacks[i]?).map fun p => some (p.name, p.methods)
+      (match plugin with
+       | none => (s, "bad-op")
+       | some plugin =>
+         let r := ownerDefaultPlugin s.dispCfg rm cmd plugin
+         ({ s with defaults := r.1.defaults },
+          (match r.2 with | .ok => "ok" | .err => "err" | .value v => "val:" ++ enc v) ++ "\t" ++
+            (if r.1.defaults.isEmpty then "-" else ",".intercalate (r.1.defaults.map fun e => enc e.1 ++ "=" ++ enc e.2))))
+    | _, _, _ => (s, "bad-op")
   | ["oenable", pl, cmd] =>
     match (if pl = "~" then some none else (dec pl).map some), dec cmd with
     | some pl, some cmd =>
